@@ -80,7 +80,8 @@ def run_one(path, func, line, pin, cond_timeout, path_timeout, extra_env=None):
         p = subprocess.run(cmd, env=env, capture_output=True, text=True, timeout=cond_timeout * 2.5 + 180, cwd=VERIF)
         out = p.stdout + p.stderr
     except subprocess.TimeoutExpired as e:
-        out = "error: harness process timeout"
+        # same meaning as CrossHair's own budget running out: the shard is not decided (reported INCONCLUSIVE)
+        out = "Not confirmed (harness process timeout)"
     kind, detail = parse_output(out)
     return Verdict(func, pin, kind, detail, time.time() - t, out[-1500:])
 
